@@ -399,4 +399,62 @@ def Store.inFlightSet (s : Store) (hs : List Nat) : List Nat :=
     | some p => p.nonTerminal
     | none => false)
 
+/-- The caller contract under which the two backends are meant to agree: a registration uses an
+    attempt id that no stored attempt (of any payment) has, and Settle/FailAttempt name an id
+    that is not an attempt of a different payment. -/
+def opOk (s : Store) : Op → Bool
+  | .reg _ a => s.rows.all (fun r => r.a.id != a.id)
+  | .settle h id => s.rows.all (fun r => r.a.id != id || r.owner == h)
+  | .failAtt h id => s.rows.all (fun r => r.a.id != id || r.owner == h)
+  | _ => true
+
+/-! ### ghost ledger of ADMITTED attempts
+
+Not part of the store: a ghost list with one row per registration the store answered `ok`
+(the HTLC the router will then send), carrying its later resolution.  Unlike the stored rows it
+is never overwritten: a second admitted registration with the same id is a second row.  A
+successful Settle/FailAttempt resolves the in-flight ledger rows the call addresses (same
+addressing as the store: `(hash, id)` for the KV store, `id` alone for the SQL store); (re-)init
+and deletions drop ledger rows exactly like stored rows. -/
+
+def resolveRows (b : Backend) (h id : Nat) (st : AState) (L : List Row) : List Row :=
+  match b with
+  | .kv => L.map (fun r => ⟨r.owner, if r.owner == h then resolveA id st r.a else r.a⟩)
+  | .sql => L.map (fun r => ⟨r.owner, resolveA id st r.a⟩)
+
+def ledgerStep (b : Backend) (op : Op) (ok : Bool) (L : List Row) : List Row :=
+  if !ok then L else
+  match op with
+  | .init h _ => L.filter (fun r => r.owner != h)
+  | .reg h a => L ++ [⟨h, { a with st := .inflight }⟩]
+  | .settle h id => resolveRows b h id .settled L
+  | .failAtt h id => resolveRows b h id .failed L
+  | .fail _ _ => L
+  | .del h => L.filter (fun r => r.owner != h)
+  | .delFailed h => L.filter (fun r => !(r.owner == h && r.a.st == .failed))
+  | .fetch _ => L
+
+/-- store + ghost ledger. -/
+abbrev GState := Store × List Row
+
+def gstep (b : Backend) (g : GState) (op : Op) : GState :=
+  let r := step b g.1 op
+  (r.1, ledgerStep b op (r.2.1 == .ok) g.2)
+
+def gexec (b : Backend) (g : GState) (ops : List Op) : GState := ops.foldl (gstep b) g
+
+/-- Σ of the admitted settled + in-flight amounts of payment `h`. -/
+def admittedSent (L : List Row) (h : Nat) : Nat :=
+  sentL ((L.filter (fun r => r.owner == h)).map (·.a))
+
+/-- attempt-id freshness per payment (what the switch's persistent sequencer guarantees, and
+    more): a registration never uses an id the payment already stores. -/
+def regFresh (s : Store) : Op → Bool
+  | .reg h a => !(s.attemptsOf h).any (fun x => x.id == a.id)
+  | _ => true
+
+def freshRun (b : Backend) (s : Store) : List Op → Bool
+  | [] => true
+  | op :: ops => regFresh s op && freshRun b (step b s op).1 ops
+
 end LndModel.C16
